@@ -108,3 +108,39 @@ func VerifC10PreExecute() {
 	}
 	verifReach("end")
 }
+
+// VerifC10ActionCount: the action-count limit for transactions far beyond it — counts at and around the 8- and 9-bit
+// boundaries (the limit is a uint8, the count an int) with every value of the limit; all actions always active.
+func VerifC10ActionCount() {
+	counts := []int{0, 1, 254, 255, 256, 257, 271, 272, 511, 512, 513}
+	n := counts[verifChoose("nactions", len(counts))]
+	r := hDefaultRules()
+	r.maxActions = verifU8("maxActionsRule")
+	acts := make([]Action, n)
+	for i := range acts {
+		acts[i] = c10Action{-1, -1}
+	}
+	addr := codec.Address{1}
+	tx := &Transaction{
+		TransactionData: TransactionData{Base: Base{Timestamp: 2000, ChainID: r.chainID, MaxFee: 1 << 40}, Actions: acts},
+		Auth:            hNewAuth(addr), size: 50, id: ids.ID{1},
+	}
+	parent := hIm{map[string][]byte{string(hBalKey(addr)): binary.BigEndian.AppendUint64(nil, 1<<50)}}
+	fm := internalfees.NewManager(nil)
+	for d := fees.Dimension(0); d < fees.FeeDimensions; d++ {
+		fm.SetUnitPrice(d, 1)
+	}
+	err := tx.PreExecute(context.Background(), fm, hBH{}, r, parent, 1500)
+	if err == nil {
+		if n > int(r.maxActions) {
+			verifFail("too-many-actions-accepted")
+		}
+		verifReach("accepted")
+	} else {
+		if n <= int(r.maxActions) {
+			verifFail("allowed-action-count-rejected")
+		}
+		verifReach("rejected")
+	}
+	verifReach("end")
+}
